@@ -30,6 +30,44 @@ CHECKS = {
         "design_ref": "5/C09",
         "technique": "Lean 4 proof (invariant + refinement by induction over event histories) + model/implementation correspondence",
     },
+    "C10": {
+        "engine": "link",
+        "text": ("Lean theorems over the spill model (Spill.lean: _pack with the limit test, _unpack, file removal on "
+                 "eviction and at finalize, the read path of each of the eight buffering slot kinds with _unpack where the "
+                 "code calls it): spill_transparent (for every slot kind, limit, location and event history the answers equal "
+                 "those of the same slot holding everything in RAM, hence the run without a limit), files_under_location, "
+                 "created_under_location, finalize_leaves_no_files, mem_accounting; tied to sdk/output.py, adapters/time.py, "
+                 "adapters/time_integration.py and schedule.py by a differential run on real Output/adapter/Input links "
+                 "(limits at every prefix position, plain and masked payloads, directory listing after every event) and on "
+                 "real Composition runs with slot_memory_limit/location, plus an implementation-only oracle."),
+        "design_ref": "5/C10",
+        "technique": "Lean 4 proof (simulation of the spilling slot by the all-in-RAM slot, file-system invariant) + model/implementation correspondence",
+    },
+    "C11": {
+        "engine": "link",
+        "text": ("Lean theorems over the time-adapter model (TimeAdapters.lean: buffer fed on notification, check_time range, "
+                 "the _interpolate bodies of NextTime/PreviousTime/LinearTime/StepTime, _clear_cached_data): next_spec, "
+                 "prev_spec, linear_spec, step_spec (every answer of the evicting adapter equals the mathematical definition "
+                 "on the full publication history for every non-decreasing request sequence), exact_at_publication, "
+                 "out_of_range_timeErr, cache_evict_invariant; tied to adapters/time.py by a differential run on real "
+                 "Output >> adapter >> Input links (irregular histories, k/8 step positions, scalar and gridded payloads) "
+                 "plus an exact-rational implementation-only oracle."),
+        "design_ref": "5/C11",
+        "technique": "Lean 4 proof (refinement to a closed-form specification, invariant over event histories) + model/implementation correspondence",
+    },
+    "C12": {
+        "engine": "link",
+        "text": ("Lean theorems over the integration-adapter model (Integration.lean: _source_updated/_prev_time, the "
+                 "per-interval loop of AvgOverTime/SumOverTime with trapezoid / two-piece step area, clamps, per_time, "
+                 "initial interval, lagging eviction): sum_eq_integral and avg_eq_integral_div against an independently "
+                 "defined piecewise integral (antiderivative differences) of the interpolant of the full history, "
+                 "sum_additive / partition_independent, avg_in_range, evict_invariant; tied to "
+                 "adapters/time_integration.py by a differential run on real links (finer/coarser/incommensurable "
+                 "partitions, linear and step k/8, per-time and absolute, several units) plus an exact-rational oracle. "
+                 "Unit algebra (pint) is checked by the oracle, not modelled."),
+        "design_ref": "5/C12",
+        "technique": "Lean 4 proof (loop invariant + field arithmetic over Rat, refinement over event histories) + model/implementation correspondence",
+    },
     "C19": {
         "engine": "validate",
         "text": ("Lean theorems over the topology model (coupling forest of outputs, adapters and inputs carrying the class "
@@ -110,6 +148,37 @@ CHECKS = {
         "design_ref": "5/C17",
         "technique": "Lean 4 proof (cache invariant by induction over query histories; field identities; decide over the catalogue table) + model/implementation correspondence",
     },
+    "C16": {
+        "engine": "regrid",
+        "text": ("Lean theorems over the regridding model (flat level: data_points, ravelled masks and values in grid order; "
+                 "compress / scatter index maps; KDTree.query as an arbitrary arg-min function with the arg-min specification; "
+                 "LinearNDInterpolator as a parameter with the hypotheses NaN-exactly-outside-the-hull and affine-exact inside): "
+                 "every unmasked target location receives the value of a Euclidean-nearest unmasked source location (ties free); "
+                 "a target location coinciding with a source location gets that location's value whatever the enumeration order "
+                 "of either grid (identity between layouts); masked target cells stay masked and only they; source values under "
+                 "the mask never influence the result (nearest and linear); the linear path reproduces affine fields inside the "
+                 "hull, masks everything outside (refusing Mask.NONE / an explicit mask that does not cover it) or fills it with a "
+                 "nearest source value. Partial by nature: scipy's k-d tree and triangulation are parameters with hypotheses. "
+                 "Tied to adapters/regrid.py, data/tools/mask.py, data/grid_base.py by a differential run over random pairs of "
+                 "grids of all five kinds, 1-3 axes, all layouts and masks through real Output >> Regrid* >> Input links, plus an "
+                 "implementation-only oracle (brute-force nearest neighbour on coordinates read from data_axes / points / cell "
+                 "nodes by multi-index, perturbation of masked values, Delaunay hull classification with a safety margin)."),
+        "design_ref": "5/C16",
+        "technique": "Lean 4 proof (index-map lemmas for compress/scatter by induction over mask lists; arg-min and interpolator as hypotheses) + model/implementation correspondence",
+    },
+    "C07": {
+        "engine": "info",
+        "text": ("Lean theorems over the metadata-exchange model (Info.accepts in both directions, Output.get_info fill and "
+                 "counter, Input.exchange_info merge, adapter chains with the _get_info rewrites of GridToValue, SumOverTime and "
+                 "regridding adapters; grid/units/mask relations as parameters): after a successful exchange no field of the "
+                 "input info is unset (any adapter chain), the declared grid/units/mask are compatible with the delivered ones, "
+                 "unset fields carry the other side's values in both directions, incompatible ends and a conflicting second "
+                 "target end in a metadata error (links of any length that do not rewrite metadata). Tied to info.py, "
+                 "sdk/output.py, sdk/input.py, sdk/adapter.py, adapters/*.py by a differential run of producer/consumer "
+                 "combinations through real Composition.connect() plus a location-based oracle."),
+        "design_ref": "5/C07",
+        "technique": "Lean 4 proof (induction over adapter chains with an adapter-state invariant; case analysis of accepts/get_info) + model/implementation correspondence",
+    },
 }
 
 PENDING_REASON = "check not built yet in this session (work in progress; see DESIGN.md section 5 for the plan)"
@@ -156,6 +225,10 @@ def main():
              "kind_free_text": "harness components (create_connector/try_connect with rules, staged infos/data, adapter chains) run through real Composition.connect() under several listing orders, diffed against the Lean driver"},
             {"name": "units", "path": "harness/engines", "serves_properties": sorted(k for k, v in CHECKS.items() if v["engine"] == "units"),
              "kind_free_text": "query histories over all ordered unit pairs on the real unit helpers and real links, diffed against the Lean driver"},
+            {"name": "regrid", "path": "harness/engines", "serves_properties": sorted(k for k, v in CHECKS.items() if v["engine"] == "regrid"),
+             "kind_free_text": "real grids of all five kinds wired Output >> RegridNearest/RegridLinear >> Input, received data diffed against the Lean driver and a brute-force oracle"},
+            {"name": "info", "path": "harness/engines", "serves_properties": sorted(k for k, v in CHECKS.items() if v["engine"] == "info"),
+             "kind_free_text": "producer/consumer metadata combinations run through real Composition.connect(), infos diffed against the Lean driver"},
         ],
         "checks": checks,
         "not_applicable": na,
